@@ -205,7 +205,26 @@ def r8(ctx):
     bodies = [b] + [lib.body(cp) for cp in lib.closures_of(b.path)]
     as_utc = [c for x in bodies for c in x.calls(r'DateTime::<Tz>::from_naive_utc_and_offset$|DateTime<.*>::from_naive_utc_and_offset$|::from_utc$|TimeZone::from_utc_datetime$|TimeZone>::from_utc_datetime$|NaiveDateTime::and_utc$')
               if any(k.bb == ps[0].bb for a in c.args for k in backslice(x, [a]).calls) or x is not b]
-    as_local = [c for x in bodies for c in x.calls(r'TimeZone::from_local_datetime$|TimeZone>::from_local_datetime$|NaiveDateTime::and_local_timezone$')]
+    as_local = [c for x in bodies for c in x.calls(r'TimeZone::from_local_datetime$|TimeZone>::from_local_datetime$|NaiveDateTime::and_local_timezone$|from_local_datetime$')]
+    # the helpers parse_date_time calls (an inner fn that resolves the LocalResult) belong to it
+    helpers = [hb for x in list(bodies) for k in x.calls(r'^config::parse_date_time::\w+$|^config::\w+$') for hb in [lib.body(k.path)] if hb is not None and hb.path != b.path]
+    allb = bodies + helpers + [lib.body(cp) for hb in helpers for cp in lib.closures_of(hb.path)]
+    # (b) a wall-clock time that exists twice (the clocks are turned back): the earlier INSTANT is the safe limit.  chrono's LocalResult::earliest()
+    # returns the first element of Ambiguous(..), which chrono 0.4.31 orders by offset, not by instant
+    amb = [c for x in allb for c in x.calls(r'LocalResult<.*>::(earliest|latest|single|unwrap)$|LocalResult::<T>::(earliest|latest|single|unwrap)$')]
+    mn = [c for x in allb for c in x.calls(r'^std::cmp::min$|Ord::min$|Ord>::min$')]
+    picks = [c for c in amb if c.path.endswith(('earliest', 'latest', 'unwrap'))]
+    ctx.check(not picks and (bool(mn) or any(c.path.endswith('single') for c in amb)), rule, b.path + '|ambiguous-takes-the-earlier-instant', (picks[0].where() if picks else b.where()),
+              'an ambiguous local time is resolved by comparing the two instants (min), or refused',
+              'an ambiguous local time (the hour that exists twice when the clocks are turned back) is resolved with LocalResult::%s(): chrono orders the two candidates by UTC offset, so "earliest" is the '
+              'reading with the smaller offset, i.e. the LATER instant (02:30 CET instead of 02:30 CEST): `remove -m "2024-10-27 02:30:00"` processes a group whose file was rewritten at 02:45 CEST'
+              % (picks[0].path.rsplit('::', 1)[-1] if picks else ''))
+    # (c) a zone the parser does not know is not silently dropped: the arm without an offset looks at the words of the input
+    words = [c for x in allb for c in x.calls(r'str::<impl str>::(split_whitespace|split|split_ascii_whitespace|chars|contains|ends_with|find|matches)$')
+             if 1 in backslice(x, [c.args[0]]).params or x is not b]
+    ctx.check(bool(words), rule, b.path + '|unknown-zone-refused', b.where(), 'a time given with a zone name the parser does not resolve is refused instead of being taken as local time',
+              'dtparse returns no offset both when the string has no zone and when it has a zone NAME it does not know (JST, EST, CEST - what `date` prints; it even prints "tzname .. identified but not '
+              'understood" on stdout), and parse_date_time takes the digits as local time in both cases: `remove -m "2024-05-01 12:00:00 JST"` on a machine running in UTC sets the limit 9 hours too late')
     ctx.check(bool(as_local) and not as_utc, rule, b.path + '|wall-clock-in-its-zone', (as_utc[0].where() if as_utc else ps[0].where()),
               'the parsed date and time are taken as the wall-clock time of the given (or local) time zone (%d conversions)' % len(as_local),
               'the date and time parsed from --modified-before are wall-clock digits in the given (or local) offset, but they are handed to from_naive_utc_and_offset, which reads the same digits as UTC: '
